@@ -371,7 +371,21 @@ def lock_events(toks):
         elif t == "LKFUNC":
             ev.append("F")
         elif t in ("epoll_wait", "select") and i + 1 < n and toks[i + 1] == "(":
-            ev.append("W")
+            # a wait; epoll_wait(..., 0) (literal zero timeout) only polls and may run locked
+            d, j, last = 0, i + 1, i + 2
+            while j < n:
+                if toks[j] == "(":
+                    d += 1
+                elif toks[j] == ")":
+                    d -= 1
+                    if d == 0:
+                        break
+                elif toks[j] == "," and d == 1:
+                    last = j + 1
+                j += 1
+            ev.append("P" if (t == "epoll_wait" and toks[last:j] == ["0"]) else "W")
+        elif t == "coap_io_do_epoll_lkd" and i + 1 < n and toks[i + 1] == "(":
+            ev.append("X")          # the collected events are consumed
         elif t == "lock_count" and i >= 2 and toks[i - 2] == "global_lock":
             raise TranslatorError("macro touches global_lock.lock_count directly")
         elif t == "pid" and i >= 2 and toks[i - 2] == "global_lock":
@@ -450,8 +464,17 @@ def scan_wait(repo, cfg, defs=()):
         raise TranslatorError("coap_io_process_with_fds_lkd: %d definitions after preprocessing" % len(fn))
     ps = paths(parse_body(fn[0][2]), lock_events)
     segs = set()
+    stale = set()
     for ev, ex in ps:
-        s = "".join(e for e in ev if e in "ULW")
+        full = "".join(e for e in ev if e in "ULWPX")
+        # events handed to coap_io_do_epoll_lkd must have been collected AFTER the lock was taken
+        # again: sockets referenced by events collected while unlocked may have been freed since
+        for m in re.finditer(r"X", full):
+            before = full[:m.start()]
+            k = max(before.rfind("W"), before.rfind("P"))
+            if k >= 0 and "L" in before[k:]:
+                stale.add(full)
+        s = "".join(e for e in full if e in "ULW")
         # the function is entered locked: cut the path at every wait
         for m in re.finditer(r"W+", s):
             before = s[:m.start()]
@@ -467,7 +490,7 @@ def scan_wait(repo, cfg, defs=()):
     order = ["F", "UF", "FL", "UFL"]
     worst = sorted(segs, key=lambda x: order.index(x))[0]
     return [MOP[e] for e in worst], {"file": os.path.relpath(src, repo), "segments": sorted(segs),
-                                     "paths": len(ps)}
+                                     "paths": len(ps), "stale_event_paths": sorted(stale)}
 
 
 def static_config(repo, cfg, defs=()):
@@ -926,6 +949,8 @@ def translate(repo, cfg, compiled_srcs, compiled, reports, ac_cfg=None):
     wait, wdiag = scan_wait(repo, cfg)
     api_ok, api = scan_api(repo, compiled_srcs)
     cb_ok, sites, cbdiag = scan_callbacks(repo, compiled_srcs)
+    if wdiag["stale_event_paths"]:
+        api_ok = False
     c = dict(macros)
     c["wait"] = wait
     c.update({"compiled": bool(compiled), "reports": bool(reports), "api_ok": api_ok, "cb_ok": cb_ok})
